@@ -21,6 +21,16 @@ import (
 
 var replayMu sync.Mutex
 
+// workDir is this process's scratch directory (concurrent checks must not
+// share generated drivers and overlays); removed by cleanupWork at exit.
+func workDir() string {
+	d := filepath.Join(verifDir, ".work", fmt.Sprintf("p%d", os.Getpid()))
+	os.MkdirAll(d, 0o755)
+	return d
+}
+
+func cleanupWork() { os.RemoveAll(filepath.Join(verifDir, ".work", fmt.Sprintf("p%d", os.Getpid()))) }
+
 // writeOverlay writes the overlay JSON for `go test` and returns its path.
 func writeOverlay(files []harnessFile, pkgRel string, harnessNames []string) string {
 	var selfNames, diffNames []string
@@ -37,8 +47,7 @@ func writeOverlay(files []harnessFile, pkgRel string, harnessNames []string) str
 	harnessNames = hn
 	sort.Strings(selfNames)
 	sort.Strings(diffNames)
-	work := filepath.Join(verifDir, ".work")
-	os.MkdirAll(work, 0o755)
+	work := workDir()
 	repl := map[string]string{}
 	for _, f := range files {
 		repl[f.virtual] = f.real
